@@ -1,6 +1,7 @@
 package checks
 
 import (
+	"bytes"
 	"crypto/ed25519"
 	"encoding/json"
 	"errors"
@@ -14,6 +15,7 @@ import (
 	"github.com/lidofinance/dc4bc/client/api/dto"
 	"github.com/lidofinance/dc4bc/client/modules/state"
 	"github.com/lidofinance/dc4bc/client/types"
+	fsmtypes "github.com/lidofinance/dc4bc/fsm/types"
 	"github.com/lidofinance/dc4bc/fsm/types/requests"
 	"github.com/lidofinance/dc4bc/storage"
 	"github.com/lidofinance/dc4bc/storage/file_storage"
@@ -563,6 +565,14 @@ func c08(tier string, args []string) int {
 			} else if m.DkgRoundID == roundB {
 				B = append(B, m)
 			}
+		}
+		// and, as the last message of round A, a reconstruction broadcast that the other
+		// participant signs and posts under A's identifier while its entries name round B: it is
+		// a message of round A, whatever it says inside
+		{
+			o := rec2.W.Nodes[1-v]
+			entries := []fsmtypes.ReconstructedSignature{{File: "b", BatchID: "B-batch", MessageID: "b-0", SrcPayload: []byte("round B"), Signature: bytes.Repeat([]byte{0x21}, 96), Username: o.Name, DKGRoundID: roundB}}
+			A = append(A, world.SignedMessage(roundA, "signature_reconstructed", world.MustJSON(entries), o.Name, o.KeyPair.Priv, ""))
 		}
 		lab, err := NewLabFor(rec2.W, v)
 		if err != nil {
